@@ -40,6 +40,14 @@ def run(facts, rep, tier):
         E = C.error_exit_blocks(b)
         rets = set(C.return_blocks(b))
         fl = Flow(facts, b)
+        # a body is inlined only under a binding: unassign_nodes is also what clears the temporary mappings of a copy, so a
+        # shortcut that inlines without assign/unassign leaves them behind for the next copy
+        unbound = [r for r in R if r in C.reachable(b, [0], removed_blocks=set(A) | E)]
+        rep.ob("C07.B", "%s|inline-only-under-binding" % name, not unbound,
+               "every recursively_inline_graph call of this function is preceded by assign_input_nodes on every path" if not unbound else
+               "recursively_inline_graph can be reached without assign_input_nodes (and so without the matching unassign_nodes): the "
+               "copy's temporary node mappings are never cleared, a later copy of the same body finds stale entries",
+               b.loc(unbound[0]) if unbound else b.loc())
         for k, a in enumerate(A):
             n_sites += 1
             key = "%s|assign#%d" % (name, k)
